@@ -5,7 +5,7 @@
 # build output are scratch; remove /tmp/vmut when done.
 set -u
 wt="$1"; shift
-mkdir -p /tmp/vmut
+rm -rf /tmp/vmut/target; mkdir -p /tmp/vmut
 rsync -a --delete --exclude target --exclude .git --exclude .work --exclude replays --exclude evidence --exclude 'fuzz/target' --exclude seeded /verif/ /tmp/vmut/ --exclude /target
 mkdir -p /tmp/vmut/evidence
 sed -i "s#path = \"/repo/#path = \"$wt/#g" /tmp/vmut/harness/Cargo.toml
